@@ -25,6 +25,10 @@ func (C20) Gen(rt *rapid.T, tier string) any {
 	cfg := &Config{CancelAt: -1}
 	tree := genTree(rt, TreeOpts{MaxNodes: 8, MaxDepth: 2, Symlinks: false, Specials: false, Gitignore: false, MaxSize: 20}, "t")
 	cfg.Roots = []RootSpec{{Tree: tree}}
+	if rapid.IntRange(0, 4).Draw(rt, "tworoots") == 4 {
+		// packages extracted from every scan root belong to "the packages extracted in that scan"
+		cfg.Roots = append(cfg.Roots, RootSpec{Tree: genTree(rt, TreeOpts{MaxNodes: 5, MaxDepth: 2, MaxSize: 20}, "t2")})
+	}
 	cfg.Extractors = genExtractors(rt, 3, true)
 	for i := range cfg.Extractors {
 		l := fmt.Sprintf("ex%d", i)
@@ -36,12 +40,19 @@ func (C20) Gen(rt *rapid.T, tier string) any {
 	}
 	ns := rapid.IntRange(0, 2).Draw(rt, "nstandalone")
 	for i := 0; i < ns; i++ {
-		cfg.Standalone = append(cfg.Standalone, StandSpec{Name: fmt.Sprintf("s%d", i), NPkgs: rapid.IntRange(0, 2).Draw(rt, fmt.Sprintf("s%d.n", i)), Err: rapid.IntRange(0, 4).Draw(rt, fmt.Sprintf("s%d.err", i)) == 4})
+		st := StandSpec{Name: fmt.Sprintf("s%d", i), NPkgs: rapid.IntRange(0, 2).Draw(rt, fmt.Sprintf("s%d.n", i)), Err: rapid.IntRange(0, 4).Draw(rt, fmt.Sprintf("s%d.err", i)) == 4}
+		if st.Err {
+			st.ErrKind = rapid.SampledFrom([]string{"", "canceled", "notexist"}).Draw(rt, fmt.Sprintf("s%d.errkind", i))
+		}
+		cfg.Standalone = append(cfg.Standalone, st)
 	}
 	nd := rapid.IntRange(0, 4).Draw(rt, "ndetectors")
 	var dets []DetSpec
 	for i := 0; i < nd; i++ {
 		d := DetSpec{Name: fmt.Sprintf("d%d", i), Err: rapid.IntRange(0, 3).Draw(rt, fmt.Sprintf("d%d.err", i)) == 3}
+		if d.Err {
+			d.ErrKind = rapid.SampledFrom([]string{"", "", "canceled", "deadline", "notexist"}).Draw(rt, fmt.Sprintf("d%d.errkind", i))
+		}
 		nf := rapid.IntRange(0, 3).Draw(rt, fmt.Sprintf("d%d.nf", i))
 		for j := 0; j < nf; j++ {
 			l := fmt.Sprintf("d%d.f%d", i, j)
